@@ -311,6 +311,20 @@ func tier() string {
 
 // Main is called from the single test of a check binary.
 func Main(t tb, spec Spec, body func(c *Ctx)) {
+	if rp := os.Getenv("VERIF_REPLAY"); rp != "" && os.Getenv("VERIF_SHARD") == "" {
+		// a violation recorded as a process crash has no case to re-execute, only the dump of the crash: its replay
+		// is the whole check again (no evidence is written for a replay)
+		var rf struct {
+			Case map[string]any `json:"case"`
+		}
+		if err := ReadJSON(rp, &rf); err == nil {
+			if _, isDump := rf.Case["dump"]; isDump && len(rf.Case) == 1 {
+				fmt.Fprintln(os.Stderr, "replay of a recorded process crash: the whole check is run again")
+				os.Unsetenv("VERIF_REPLAY")
+				os.Setenv("VERIF_NO_EVIDENCE", "1")
+			}
+		}
+	}
 	if os.Getenv("VERIF_SHARD") != "" {
 		child(spec, body)
 		return
